@@ -101,7 +101,29 @@ def _fixed_default_docs():
         [('M', 'item', ' ', [A]), ('T', 'b')],
     ]
 
+LISTS_CTX = {'lists': True, 'macros': [], 'envs': [], 'specials': [], 'um': None, 'ue': None}
+
+def _fixed_lists_docs():
+    """(source, expected structure) under a context whose list environments extend the context for their body (nested:
+    extended twice); unknown macros are known to the fallback at every depth"""
+    g = lambda *b: ('g', '{', '}', list(b))
+    item = lambda a=None: ('m', 'item', [a])
+    foo = ('m', 'foo', [])
+    return [
+        ('\\begin{enumerate}\\item one \\foo{x}\\begin{itemize}\\item[a] two \\foo{y}\\end{itemize}\\end{enumerate}',
+         [('e', 'enumerate', [], [item(), ('c', 'one '), foo, g(('c', 'x')),
+                                  ('e', 'itemize', [], [item(('g', '[', ']', [('c', 'a')])), ('c', ' two '), foo, g(('c', 'y'))])])]),
+        ('\\begin{itemize}\\item p\\begin{itemize}\\item q\\begin{enumerate}\\item[r]\\bar\\end{enumerate}\\end{itemize}\\baz\\end{itemize}\\item',
+         [('e', 'itemize', [], [item(), ('c', 'p'), ('e', 'itemize', [], [item(), ('c', 'q'),
+              ('e', 'enumerate', [], [item(('g', '[', ']', [('c', 'r')])), ('m', 'bar', [])])]), ('m', 'baz', [])]), ('m', 'item', [])]),
+        ('\\foo\\begin{enumerate}\\foo\\begin{unk}\\item[z]\\foo\\end{unk}\\end{enumerate}',
+         [foo, ('e', 'enumerate', [], [foo, ('e', 'unk', [], [item(('g', '[', ']', [('c', 'z')])), foo])])]),
+    ]
+
 def _parse_cases(tier, rng):
+    for s, exp in _fixed_lists_docs():
+        for tol in (False, True):
+            yield {'tol': tol, 'ctx': LISTS_CTX, 's': s, 'doc': [], 'cg': 'default', 'fixed': True, 'expect': exp}
     for d in _fixed_default_docs():
         yield {'tol': False, 'ctx': 'default', 's': docgen.unparse(d), 'doc': d, 'cg': 'default', 'fixed': True}
     n = 2500 if tier == 'quick' else 40000
@@ -196,7 +218,7 @@ def run_impl(c):
     if kind != 'ok':
         fail = {'kind': 'well-formed-document-rejected', 'detail': out[:300]}
     else:
-        exp = docgen.tree_of(doc, cg)
+        exp = c['expect'] if c.get('expect') is not None else docgen.tree_of(doc, cg)
         got = docgen.project_list(p)
         if _tuplify(exp) != _tuplify(got):
             fail = {'kind': 'structure-differs', 'detail': 'expected %r ; parsed %r' % (exp, got)}
